@@ -14,7 +14,9 @@ TRUSTED_EXTRA = ["harness/src/e_recycle.rs (ledger statistics per round)"]
 DIRECT = r"^c18-"
 # the clause "a reserve on an empty handle that is alone on a large-enough buffer never allocates" is evaluated on every E1 history (kind shared with C08)
 HEAP_DIRECT = r"^c08-sole-owner-reclaim"
-def translators(ctx, bins): pass
+def translators(ctx, bins):
+    import eng_heap
+    eng_heap.translators(ctx)
 def engines(ctx, bins):
     def go():
         shards = 4 if ctx.tier == "quick" else 16
